@@ -447,7 +447,7 @@ Next ==
   \/ Revert
   \/ \E n \in Nums : SetL1Head(n)
   \/ \E g \in BOOLEAN : Restart(g)
-  \/ \E ms \in MutSeqs : \E a \in {NoArg("blockHashAndNumber"), IdArg("getBlockWithTxHashes", TagId("latest"))} :
+  \/ \E ms \in MutSeqs : \E a \in {IdArg("getBlockWithTxHashes", TagId("latest"))} :
        ReadDuring(a, ms)
   \/ BlockNumber \/ BlockHashAndNumber
   \/ \E id \in BlockIds :
